@@ -73,7 +73,7 @@ theorem skipBR_bytes_le (b : Bytes) (cap : Nat) (t : UInt8) (r' : Rd) (hcap : b.
     simp only [Rd.readLen]; omega
 
 /-- BufferReader.Skip over the buffered reader in any good state (`RdOK`: C04's invariant, sizes
-    ≤ 2^60) over ANY source script — errors anywhere, empty reads, short reads: never a panic. -/
+    ≤ 2^40) over ANY source script — errors anywhere, empty reads, short reads: never a panic. -/
 theorem skipBR_stream_safe (r : Rd) (t : UInt8) (hok : RdOK r) :
     (∀ s, skipBR t r ≠ .panic s) ∧ skipBR t r ≠ .oob := by
   rcases skipBR_total_any r t hok with ⟨r', hx⟩ | ⟨e, he⟩
